@@ -3,7 +3,7 @@ from __future__ import annotations
 
 from . import loader_rules as lr
 
-EXPLANATION = "(R1) the 8x2x12 state table used by _hilbert3d satisfies the automaton axioms (digit permutation per state, states in range and reachable) and generates, in the checker's own automaton, a bijective unit-step curve with the RAMSES end points for bit lengths 1-4; _hilbert3d interpreted on the COMPLETE domain of cells for bit lengths 1 and 2 equals that automaton (bit/slot roles); (R3) Loader.load fold: cells selected with the conjunction of every reader's conditions incl. the leaf flags; leaf rule; predicates applied to unit-carrying buffers; (R5) Loader.load fold: Hilbert list used when no explicit list, explicit list wins, no files without cpu readers; hilbert_cpu_list over abstract predicates (symbolic first/last selected centre): box = [first centre - half cell, last centre + half cell] per axis, early exits return None; (R6) _read_bound_key on token lines; _get_cpu_list over every order type of a cube key range against the cpu key intervals, box size classes, the 8-corner cube product and the key stride with and without a level cap. (R3) every predicate is applied once to the unit-carrying buffer of its own variable under keys that survive the Loader's merge; (R6) the bound-key parser re-reads a path whose contents changed (memo decorators are modelled); (R7) a selective load starts from empty pieces (shared). (R8) find_max_amr_level returns the largest accepted level; (R9) memoised functions read only their arguments; the Hilbert key is an unbounded integer; the CPU pre-selection is recomputed when only the level cap changes. R5 also checks what the position predicates are evaluated on: the centres of the finest cells across boxlen x unit_l."
+EXPLANATION = "(R1) the 8x2x12 state table used by _hilbert3d satisfies the automaton axioms (digit permutation per state, states in range and reachable) and generates, in the checker's own automaton, a bijective unit-step curve with the RAMSES end points for bit lengths 1-4; _hilbert3d interpreted on the COMPLETE domain of cells for bit lengths 1 and 2 equals that automaton (bit/slot roles); (R3) Loader.load fold: cells selected with the conjunction of every reader's conditions incl. the leaf flags; leaf rule; predicates applied to unit-carrying buffers; (R5) Loader.load fold: Hilbert list used when no explicit list, explicit list wins, no files without cpu readers; hilbert_cpu_list over abstract predicates (symbolic first/last selected centre): box = [first centre - half cell, last centre + half cell] per axis, early exits return None; (R6) _read_bound_key on token lines; _get_cpu_list over every order type of a cube key range against the cpu key intervals, box size classes, the 8-corner cube product and the key stride with and without a level cap. (R3) every predicate is applied once to the unit-carrying buffer of its own variable under keys that survive the Loader's merge; (R6) the bound-key parser re-reads a path whose contents changed (memo decorators are modelled); (R7) a selective load starts from empty pieces (shared). (R8) find_max_amr_level returns the largest accepted level; (R9) memoised functions read only their arguments; the Hilbert key is an unbounded integer; the CPU pre-selection is recomputed when only the level cap changes. R5 also checks what the position predicates are evaluated on: the centres of the finest cells across boxlen x unit_l. (R10) the AMR reader's file list is reset at every (re)initialisation (shared with C15.R2); R5 includes an explicit empty cpu_list; undecided tests of the loader are explored both ways."
 NOT_DECIDED = 'bit lengths above 2 for the function itself (bounded fold; the table axioms cover 1-4); conservativeness of the box-to-cube reduction for all boxes; non-Hilbert orderings (fall back to all files)'
 TRUSTED = ('CPython ast', 'RAMSES key convention (bound keys at resolution levelmax+1)', 'the interpreter sa/models.py')
 TECHNIQUE = 'static analysis: table axioms, complete-finite-domain folding (order types, small bit lengths), abstract interpretation over symbolic predicates'
